@@ -113,6 +113,8 @@ def gen_program(rng, profile="general", payload=None, cap="rand"):
         return gen_progress(rng)
     if profile == "pair":
         return gen_pair(rng)
+    if profile == "handlepair":
+        return gen_handlepair(rng)
     if profile == "discrace":
         return gen_discrace(rng)
     if profile == "waiters":
@@ -978,6 +980,30 @@ def gen_casrace(rng, combo=None):
 
 def casrace_combos():
     return [(sd, wk, ev) for sd in "sr" for wk in ("sync", "timed") for ev in ("close", "last_drop", "peer", "peer_try")]
+
+
+HANDLE_PAIR_OPS = [("clone", "s"), ("clone", "r"), ("clone_sync", "s"), ("clone_sync", "r"), ("clone_async", "s"), ("clone_async", "r"),
+                   ("drop", "s"), ("drop", "r"), ("close", "s"), ("close", "r"), ("to_sync", "s"), ("to_async", "r"),
+                   ("sender_count", "s"), ("receiver_count", "r"), ("is_closed", "s")]
+
+
+def gen_handlepair(rng, a=None, b=None):
+    """C12: two processes each issue ONE handle operation (clone of any flavour, convert, drop, close, count) of either side in
+    the same phase, then every count observer; under the solo freeze sweep one of them is cut before each of its hooks (for
+    instance between two critical sections of a clone) while the other runs its operation to the end."""
+    a = a or rng.choice(HANDLE_PAIR_OPS)
+    b = b or rng.choice(HANDLE_PAIR_OPS)
+    cap = rng.choice([0, 1, None])
+    procs = []
+    for (op, sd) in (a, b):
+        fl = [rng.choice(["ss", "as"]), rng.choice(["sr", "ar"])]
+        obs = [{"op": o, "hs": x} for x in "sr" for o in ("sender_count", "receiver_count", "is_closed")]
+        procs.append({"phase": 0, "handles": fl, "ops": [{"op": "barrier", "ph": 1}, {"op": op, "hs": sd}, {"op": "barrier", "ph": 2}] + obs})
+    # a third process keeps one handle of each side alive and observes at the end
+    procs.append({"phase": 0, "handles": ["ss", "sr"], "ops": [{"op": "barrier", "ph": 2}] + [{"op": o, "h": 0} for o in ("sender_count", "receiver_count", "is_closed")]
+                  + [{"op": "close", "h": 1}, {"op": "sender_count", "h": 0}]})
+    st = {"spin_bias": 0.995, "p_switch": 0.1, "q_tick": 0.0, "tick_phase": 9}
+    return {"cap": cap, "payload": "w1", "procs": procs, "strat": st}
 
 
 def gen_mutex(rng, freeze=False):
